@@ -910,3 +910,17 @@ TWINS = [
     V('c07-t-int-named', _X, "        return int(calculated_value)", "        result = int(calculated_value)\n        return result"),
     V('c07-t-base-kw', _U, "        return int(numeric_str[1:], 2)", "        return int(numeric_str[1:], base=2)"),
 ]
+MUTANTS += [
+    V('c07-integer-fast-path-floordiv', 'expression/__init__.py', """            elif self.token_type in [TokenType.T_DIV, TokenType.T_MOD]:
+""", """            elif self.token_type in [TokenType.T_DIV, TokenType.T_MOD]:
+                if isinstance(left_result, int) and isinstance(right_result, int) and self.token_type == TokenType.T_DIV:
+                    return operator.floordiv(left_result, right_result)
+""", 'C07.3'),
+    V('c07-octal-branch', 'utilities.py', """    else:
+        return int(numeric_str)
+""", """    elif len(numeric_str) > 1 and numeric_str[0] == '0' and numeric_str.isdigit():
+        return int(numeric_str, 8)
+    else:
+        return int(numeric_str)
+""", 'C07.5'),
+]
